@@ -301,6 +301,11 @@ func runC08(c *eng.Ctx, tier string) {
 		}
 	}
 
+	// R-C08-9: "403 for a permission denial": the permission check precedes
+	// every look at the state, so a caller without the grant is answered 403
+	// whatever exists (C01's rule)
+	includeOnly(c, "R-C08-9", func(sc *eng.Ctx) { runC01(sc, "quick") }, "R-C01-1")
+	eng.SetRoot(nil)
 	errorWrapDiscipline(c, "R-C08-7")
 	notFoundDiscipline(c, "R-C08-8")
 	c08Routes(c, sj, getIdentity)
